@@ -708,7 +708,12 @@ def _xr_reproject_ds(
             dv, how=dst_geobox, resampling=resampling, dst_nodata=dst_nodata, **kw
         )
 
-    return src.map(_maybe_reproject)
+    # NOTE: not using Dataset.map here: recent xarray versions copy attributes
+    # of the source coordinates (including stale ``spatial_ref``) onto the result
+    return xarray.Dataset(
+        {name: _maybe_reproject(dv) for name, dv in src.data_vars.items()},
+        attrs={k: v for k, v in src.attrs.items() if k not in SPATIAL_ATTRIBUTES},
+    )
 
 
 def _xr_reproject_da(
